@@ -278,7 +278,7 @@ def main():
     classify = getattr(mod, "known_class", lambda case, impl, d: None)
     prop_fail, corr_fail, known_hit, model_gap = [], [], {}, []
     ms_ok = getattr(mod, "mirror_spec_ok", lambda c, d: d["mirror"] == d["spec"])
-    dist_fn = getattr(mod, "distribution", None)
+    dist_fn = getattr(mod, "distribution", core.generic_distribution)
     dist = {}
     samples = []
     n_prop_fail = n_corr_fail = 0
